@@ -69,7 +69,12 @@ class Parser:
         # not advance and this text would be taken for an empty program.
         self._current_token = Token(TokenTypes.UNKNOWN)
         self.next_token()
-        return self._script()
+        try:
+            return self._script()
+        except RecursionError:
+            # Thousands of nested braces, "if"s or the like: too deep for a
+            # recursive-descent parser, but still only a script to reject.
+            return self.trigger_error('The script is nested too deeply.')
 
     def get_program(self):
         return self._code_gen.program
